@@ -140,6 +140,17 @@ Fixpoint split_ws (b : bytes) (cur : bytes) : list bytes :=
 
 Definition parse_int (v : bytes) : option Z := Z_of_dec v.   (* plain ASCII decimal, optional '-' *)
 
+(* the x.<name> / x_<name> parameters in order of first appearance; the value is the first one given for the key *)
+Fixpoint collect_x (q0 q : list (bytes * bytes)) (acc : list (bytes * bytes)) : list (bytes * bytes) :=
+  match q with
+  | [] => acc
+  | (k, v) :: r =>
+      if starts_with [120; 46]%N k || starts_with [120; 95]%N k
+      then collect_x q0 r (if existsb (fun p => bytes_eqb (fst p) (skipn 2 k)) acc then acc
+                           else acc ++ [(skipn 2 k, hd v (lookup_all k q0))])
+      else collect_x q0 r acc
+  end.
+
 Definition opt_url (o : option bytes) : res (option bytes) :=
   match o with None => Ok None | Some u => do u' <- make_url u; Ok (Some u') end.
 
@@ -180,15 +191,7 @@ Definition parse (uri : bytes) : res magnet :=
                     m_as := match as2 with Some _ => as2 | None => as1 end;
                     m_ws := dedup ws [];
                     m_kt := match kt with Some v => split_ws v [] | None => [] end;
-                    m_x := (fix xs (q : list (bytes * bytes)) (acc : list (bytes * bytes)) :=
-                              match q with
-                              | [] => acc
-                              | (k, v) :: r =>
-                                  if starts_with [120; 46]%N k || starts_with [120; 95]%N k
-                                  then xs r (if existsb (fun p => bytes_eqb (fst p) (skipn 2 k)) acc then acc
-                                             else acc ++ [(skipn 2 k, hd v (lookup_all k q))])
-                                  else xs r acc
-                              end) q [] |}
+                    m_x := collect_x q q [] |}
           end
       | _ => Err DMagnet
       end.
